@@ -40,6 +40,9 @@ var (
 	Sched       []int    // thread id chosen at each scheduling point
 	preempts    int
 	MaxPreempt  = -1 // <0: unbounded
+	// PreemptBefore, when set, restricts preemptions to the points right before an access of one of these kinds (mode
+	// "dfsw": before CAS / Store / Add / Swap - the points where a read-modify-write loses a race); nil: everywhere
+	PreemptBefore map[int]bool
 	MaxSteps    = 5000
 	SpinLimit   = 150 // consecutive scheduling points of one thread before a forced hand-over
 	lastRun     = -1
@@ -255,6 +258,9 @@ func pick(me *thread) *thread {
 	}
 	if canStay && MaxPreempt >= 0 && preempts >= MaxPreempt {
 		n = 1 // no preemption budget left: must stay
+	}
+	if canStay && PreemptBefore != nil && !PreemptBefore[me.kind] {
+		n = 1 // directed search: the running thread is only preempted right before the listed kinds of access
 	}
 	k := decide(canStay, n, func(i int) int { return opts[i].id })
 	if canStay && k != 0 {
